@@ -1,0 +1,106 @@
+//go:build verif
+
+package test
+
+// Machine-checked contracts for the test runner (see /verif/DESIGN.md, C34).
+// This file contains no declarations: it only carries specification comments
+// that the elkvc verification-condition generator reads.
+
+/*@
+// A filter's verdicts are functions of the filter and the case/suite (glob and regex
+// matching are uninterpreted); a suite verdict is one of the three constants.
+func (Filter).SuiteMatches
+  trusted
+  pure
+  assigns nothing
+  ensures ret <= SUITE_MATCH_FULL
+
+func (Filter).CaseMatches
+  trusted
+  pure
+  assigns nothing
+
+spec fn sm(i int, suite *Suite) int = elem(Filters, i).SuiteMatches(suite)
+spec fn cm(i int, c *Case) bool = elem(Filters, i).CaseMatches(c)
+
+// A suite is pruned (FALSE) iff some filter rejects it; it is FULL (every case inside runs
+// whatever the filters say about the case) iff it inherited FULL or at least one filter is
+// given, none rejects and all say FULL; otherwise TRUE.
+func SuiteMatchesFilters
+  props C34
+  requires suite != nil
+  assigns nothing
+  ensures inherited: suite.FullMatch ==> ret == SUITE_MATCH_FULL
+  ensures rejected: !suite.FullMatch && (exists i int :: 0 <= i && i < len(Filters) && sm(i, suite) == SUITE_MATCH_FALSE) ==> ret == SUITE_MATCH_FALSE
+  ensures some: !suite.FullMatch && (forall i int :: 0 <= i && i < len(Filters) ==> sm(i, suite) != SUITE_MATCH_FALSE) && (exists i int :: 0 <= i && i < len(Filters) && sm(i, suite) == SUITE_MATCH_TRUE) ==> ret == SUITE_MATCH_TRUE
+  ensures allFull: !suite.FullMatch && len(Filters) >= 1 && (forall i int :: 0 <= i && i < len(Filters) ==> sm(i, suite) == SUITE_MATCH_FULL) ==> ret == SUITE_MATCH_FULL
+  ensures none: !suite.FullMatch && len(Filters) == 0 ==> ret == SUITE_MATCH_TRUE
+  loop 1
+    invariant Filters == old(Filters) && suite.FullMatch == old(suite.FullMatch)
+    invariant forall i int :: 0 <= i && i < range_idx ==> sm(i, suite) != SUITE_MATCH_FALSE
+    invariant (result == SUITE_MATCH_TRUE) <==> (exists i int :: 0 <= i && i < range_idx && sm(i, suite) == SUITE_MATCH_TRUE)
+    invariant (result == SUITE_MATCH_FALSE) <==> range_idx == 0
+    invariant result <= SUITE_MATCH_FULL
+    decreases len(Filters) - range_idx
+
+// A case is selected iff its suite matched in full or every filter accepts the case.
+func CaseMatchesFilters
+  props C34
+  requires testCase != nil && testCase.Parent != nil
+  assigns nothing
+  ensures ret <==> (testCase.Parent.FullMatch || (forall i int :: 0 <= i && i < len(Filters) ==> cm(i, testCase)))
+  loop 1
+    invariant Filters == old(Filters)
+    invariant forall i int :: 0 <= i && i < range_idx ==> cm(i, testCase)
+    decreases len(Filters) - range_idx
+
+// FullMatch is inherited downwards and never lost
+func (*Suite).NewSubSuite
+  props C34
+  requires s != nil
+  assigns fresh
+  ensures ret != nil && fresh(ret) && ret.FullMatch == s.FullMatch && ret.Parent == s
+
+func (*Suite).RegisterSubSuite
+  props C34
+  requires s != nil && subSuite != nil
+  ensures subSuite.FullMatch == (old(subSuite.FullMatch) || s.FullMatch)
+  ensures len(s.SubSuites) == old(len(s.SubSuites)) + 1 && elem(s.SubSuites, len(s.SubSuites) - 1) == subSuite
+  ensures forall k int :: 0 <= k && k < old(len(s.SubSuites)) ==> elem(s.SubSuites, k) == old(elem(s.SubSuites, k))
+
+// registering a case appends it exactly once and keeps the earlier ones
+func (*Suite).RegisterCase
+  props C34
+  requires s != nil
+  ensures len(s.Cases) == old(len(s.Cases)) + 1 && elem(s.Cases, len(s.Cases) - 1) == testCase
+  ensures forall k int :: 0 <= k && k < old(len(s.Cases)) ==> elem(s.Cases, k) == old(elem(s.Cases, k))
+
+// ---- status lattice: RUNNING < SUCCESS < FAILED < ERROR (the enum's numeric order differs) ----
+spec fn rank(s TestStatus) int = ite(s == TEST_ERROR, 3, ite(s == TEST_FAILED, 2, ite(s == TEST_SUCCESS, 1, 0)))
+spec fn counted(s TestStatus) bool = s == TEST_ERROR || s == TEST_FAILED || s == TEST_SUCCESS
+
+// the status of a report is the worst status registered so far (skipped/pending do not count)
+func (*CaseReport).UpdateStatus
+  props C34
+  requires c != nil && (c.status == TEST_RUNNING || counted(c.status))
+  ensures counted(newStatus) ==> rank(c.status) == maxI(rank(old(c.status)), rank(newStatus)) && (c.status == TEST_RUNNING || counted(c.status))
+  ensures !counted(newStatus) ==> c.status == old(c.status)
+
+func (*SuiteReport).UpdateStatus
+  props C34
+  requires s != nil && (s.status == TEST_RUNNING || counted(s.status))
+  ensures counted(newStatus) ==> rank(s.status) == maxI(rank(old(s.status)), rank(newStatus)) && (s.status == TEST_RUNNING || counted(s.status))
+  ensures !counted(newStatus) ==> s.status == old(s.status)
+
+func (*SuiteReport).RegisterCaseReport
+  props C34
+  requires s != nil && caseReport != nil && (s.status == TEST_RUNNING || counted(s.status))
+  ensures counted(caseReport.status) ==> rank(s.status) == maxI(rank(old(s.status)), rank(caseReport.status))
+  ensures len(s.CaseReports) == old(len(s.CaseReports)) + 1 && elem(s.CaseReports, len(s.CaseReports) - 1) == caseReport
+
+func (*SuiteReport).RegisterSubSuiteReport
+  props C34
+  requires s != nil && subSuiteReport != nil && (s.status == TEST_RUNNING || counted(s.status))
+  ensures counted(old(subSuiteReport.status)) ==> rank(s.status) == maxI(rank(old(s.status)), rank(old(subSuiteReport.status)))
+  ensures len(s.SubSuiteReports) == old(len(s.SubSuiteReports)) + 1 && elem(s.SubSuiteReports, len(s.SubSuiteReports) - 1) == subSuiteReport
+@*/
